@@ -1211,3 +1211,140 @@ def check_C06_collision(in_view, out_view, status_view, prefix):
 
     walk(out_view)
     return out
+
+
+# ------------------------------------------------------------------ C14: literal collection
+
+def expected_literals(in_view):
+    """string-literal *expressions* of the input -> list of dict(value, span, ident, cond); cond = condition under which the
+    literal is NOT excluded by an enclosing require(<lit>, ..) / new RegExp(<lit>, ..)"""
+    out = []
+
+    def lit_str(e):
+        if isinstance(e, dict) and not is_lazy(e) and kind(e) == 'Lit' and not is_lazy(payload(e)) and payload(e).get('_v') == 'Str':
+            return payload(e)['_0']
+        return None
+
+    def walk(v, cond, ident=None):
+        if isinstance(v, (list, tuple)):
+            for x in v:
+                walk(x, cond)
+            return
+        if not isinstance(v, dict) or is_lazy(v):
+            return
+        t = v.get('_t')
+        if t == 'Expr':
+            s = lit_str(v)
+            if s is not None:
+                out.append({'value': s['value'], 'span': s['span'], 'ident': ident, 'cond': cond})
+                return
+            k = kind(v)
+            p = payload(v)
+            if k == 'Call':
+                c = p['callee']
+                args = p['args']
+                if not is_lazy(c) and c.get('_v') == 'Expr' and kind(c['_0']) == 'Ident' and not is_lazy(args) and args and args[0]['spread'] is None and kind(args[0]['expr']) == 'Lit':
+                    isreq = leaf_eq(payload(c['_0'])['sym'], 'require')
+                    cond = conj([cond, neg(isreq)])
+                    if cond is False:
+                        return
+            if k == 'New':
+                c = p['callee']
+                args = p['args']
+                if kind(c) == 'Ident' and args is not None and not is_lazy(args) and args and args[0]['spread'] is None and kind(args[0]['expr']) == 'Lit':
+                    isre = leaf_eq(payload(c)['sym'], 'RegExp')
+                    cond = conj([cond, neg(isre)])
+                    if cond is False:
+                        return
+        if t == 'VarDeclarator':
+            n = v['name']
+            idn = n['_0']['id']['sym'] if (not is_lazy(n) and n.get('_v') == 'Ident') else None
+            walk(v['name'], cond)
+            init = v['init']
+            if init is not None and lit_str(init) is not None:
+                walk(init, cond, idn)
+            else:
+                walk(init, cond)
+            return
+        if t == 'KeyValueProp':
+            key = v['key']
+            idn = key['_0']['sym'] if (not is_lazy(key) and key.get('_v') == 'Ident') else None
+            walk(key, cond)
+            if lit_str(v['value']) is not None:
+                walk(v['value'], cond, idn)
+            else:
+                walk(v['value'], cond)
+            return
+        for kk, x in v.items():
+            if kk == 'span' or kk.startswith('_') and kk != '_0':
+                continue
+            walk(x, cond)
+
+    walk(in_view, True)
+    return out
+
+
+def z_len(s):
+    if isinstance(s, str):
+        return len(s.encode('utf8'))
+    from models import FREE_LEN
+    n = FREE_LEN.get(s.get_id())
+    return n if n is not None else z3.Length(s)
+
+
+def check_C14(in_view, lit_view, enabled):
+    """report = exactly the qualifying string literals of the input, each once, located at its own span"""
+    out = []
+    if not enabled:
+        if lit_view is not None:
+            out.append(Violation('C14', 'disabled/report-produced', True, ''))
+        return out
+    if lit_view is None:
+        out.append(Violation('C14', 'enabled/no-report', True, ''))
+        return out
+    exp = expected_literals(in_view)
+    entries = []
+    for info in lit_view['literals']:
+        for loc in info['locations']:
+            entries.append({'value': info['value'], 'line': loc['line'], 'column': loc['column'], 'ident': loc['ident']})
+    from models import LINE_OF, COL_OF
+    used = [False] * len(entries)
+    for e in exp:
+        n = z_len(e['value'])
+        inwin = conj([n > 10, n <= 256]) if not isinstance(n, int) else (10 < n <= 256)
+        lo = e['span']['lo']['0']
+        lt = z3.IntVal(lo) if isinstance(lo, int) else z3.BV2Int(lo)
+        line, col = LINE_OF(lt), COL_OF(lt) + 1
+        match = None
+        for i, en in enumerate(entries):
+            if used[i]:
+                continue
+            # entries are paired with literals by location (unique per literal); the value is then an obligation
+            c = z3.simplify(z3.And(en['line'] == line, en['column'] == col))
+            if z3.is_true(c):
+                match = i
+                break
+        where = 'initialiser' if e['ident'] is not None else 'expression'
+        if match is None:
+            # must be outside the window or excluded
+            need = conj([inwin, e['cond']])
+            if need is not False:
+                out.append(Violation('C14', 'missing/%s-literal-not-reported' % where, need, 'a string literal inside the length window (and not under require/RegExp) is not reported'))
+        else:
+            used[match] = True
+            veq = leaf_eq(entries[match]['value'], e['value'])
+            if veq is not True:
+                out.append(Violation('C14', 'value/reported-under-a-different-value', neg(veq), ''))
+            if inwin is not True:
+                out.append(Violation('C14', 'window/literal-outside-window-reported', neg(inwin), 'a reported literal has length <= 10 or > 256'))
+            if e['cond'] is not True:
+                out.append(Violation('C14', 'excluded/literal-under-require-or-regexp-reported', neg(e['cond']), 'a literal inside require(<lit>) / new RegExp(<lit>) is reported'))
+            want = e['ident']
+            got = entries[match]['ident']
+            c = tree_eq(want, got) if (want is not None and got is not None) else (want is None and got is None)
+            if c is not True:
+                out.append(Violation('C14', 'ident/%s' % ('wrong-name' if want is not None and got is not None else ('missing-name' if got is None else 'spurious-name')), neg(c), 'ident %s vs %s' % (want, got)))
+    for i, en in enumerate(entries):
+        if not used[i]:
+            out.append(Violation('C14', 'extra/entry-without-literal', True, 'value %s' % (en['value'],)))
+    return out
